@@ -15,7 +15,7 @@ use chia_consensus::flags::{ConsensusFlags, MEMPOOL_MODE};
 use chia_consensus::make_aggsig_final_message::make_aggsig_final_message;
 use chia_consensus::owned_conditions::OwnedSpendConditions;
 use chia_consensus::run_block_generator::{run_block_generator, run_block_generator2};
-use chia_consensus::spendbundle_validation::validate_clvm_and_signature;
+use chia_consensus::spendbundle_validation::{get_flags_for_height_and_constants, validate_clvm_and_signature};
 use chia_protocol::{Bytes32, Coin, CoinSpend, Program, SpendBundle};
 use clvmr::allocator::{Allocator, NodePtr};
 use clvmr::serde::node_to_bytes;
@@ -120,6 +120,11 @@ pub struct Case {
     /// bit 0: LIMIT_SPENDS, bit 1: SIMPLE_GENERATOR (the generator is a plain quote, so both are harmless)
     #[serde(default)]
     pub extra_flags: u8,
+    /// which fork era the node believes it is in: 0 = before hard fork 2, 1 = after it,
+    /// 2 = after soft fork 8, 3 = after soft fork 9; the era's flags come from the real
+    /// get_flags_for_height_and_constants and are added on every path
+    #[serde(default)]
+    pub era: u8,
     pub bundles: Vec<BundleSpec>,
     pub prefix: Vec<Party>,
     pub threads: Vec<Vec<Party>>,
@@ -191,6 +196,9 @@ fn constants_for(case: &Case) -> ConsensusConstants {
     k.agg_sig_puzzle_amount_additional_data = Bytes32::new(d[4]);
     k.agg_sig_parent_amount_additional_data = Bytes32::new(d[5]);
     k.agg_sig_parent_puzzle_additional_data = Bytes32::new(d[6]);
+    k.hard_fork2_height = 100;
+    k.soft_fork8_height = 200;
+    k.soft_fork9_height = 300;
     k
 }
 
@@ -609,6 +617,7 @@ const MAX_COST: u64 = 11_000_000_000;
 
 fn block_flags(case: &Case) -> ConsensusFlags {
     let mut f = if case.cost_conditions { ConsensusFlags::COST_CONDITIONS } else { ConsensusFlags::empty() };
+    f |= get_flags_for_height_and_constants(50 + 100 * u32::from(case.era.min(3)), &constants_for(case));
     if case.extra_flags & 1 != 0 {
         f |= ConsensusFlags::LIMIT_SPENDS;
     }
@@ -1311,6 +1320,7 @@ impl Engine for C05 {
             cost_conditions: rng.chance(1, 2),
             mempool_visitor: rng.chance(1, 3),
             extra_flags: if rng.chance(1, 3) { rng.below(4) as u8 } else { 0 },
+            era: if rng.chance(1, 2) { 0 } else { 1 + rng.below(3) as u8 },
             bundles,
             prefix,
             threads,
@@ -1400,6 +1410,11 @@ impl Engine for C05 {
         if case.no_cache_paths {
             let mut c = case.clone();
             c.no_cache_paths = false;
+            out.push(c);
+        }
+        if case.era != 0 {
+            let mut c = case.clone();
+            c.era = 0;
             out.push(c);
         }
         out
